@@ -18,6 +18,9 @@ enum Op {
     CancelOldest,
     CancelNewest,
     Reopen,
+    /// two operations issued concurrently from two handles (both tasks are started before the
+    /// store task runs); 0 = write, 1 = read, 2 = notify_read
+    Pair((u8, u8), (u8, u8)),
 }
 
 struct Waiter {
@@ -25,6 +28,8 @@ struct Waiter {
     handle: JoinHandle<Result<Vec<u8>, store::StoreError>>,
     cancelled: bool,
     done: bool,
+    /// value the key held when the waiter was started concurrently with a write (also acceptable)
+    alt: Option<Vec<u8>>,
 }
 
 fn name(op: &Op) -> String {
@@ -35,6 +40,10 @@ fn name(op: &Op) -> String {
         Op::CancelOldest => "cancel(oldest pending notify_read)".into(),
         Op::CancelNewest => "cancel(newest pending notify_read)".into(),
         Op::Reopen => "reopen".into(),
+        Op::Pair(a, b) => {
+            let f = |x: &(u8, u8)| format!("{}({})", ["write", "read", "notify_read"][x.0 as usize % 3], (b'a' + x.1) as char);
+            format!("{} || {}", f(a), f(b))
+        }
     }
 }
 
@@ -84,7 +93,7 @@ fn run_seq(env: &mut Env, exec_id: u64, seq: &[Op], outcome: &mut Vec<u8>) -> Re
                 let kk = key(*k);
                 simnet_enter(&env.rt);
                 let handle = env.rt.rt.spawn(async move { s.notify_read(kk).await });
-                waiters.push(Waiter { key: *k, handle, cancelled: false, done: false });
+                waiters.push(Waiter { key: *k, handle, cancelled: false, done: false, alt: None });
             }
             Op::CancelOldest | Op::CancelNewest => {
                 let pending: Vec<usize> = waiters.iter().enumerate().filter(|(_, w)| !w.cancelled && !w.done).map(|(i, _)| i).collect();
@@ -92,6 +101,39 @@ fn run_seq(env: &mut Env, exec_id: u64, seq: &[Op], outcome: &mut Vec<u8>) -> Re
                 if let Some(&w) = pick {
                     waiters[w].handle.abort();
                     waiters[w].cancelled = true;
+                }
+            }
+            Op::Pair(a, b) => {
+                let before = model.clone();
+                let mut reads: Vec<(u8, JoinHandle<Result<Option<Vec<u8>>, store::StoreError>>)> = Vec::new();
+                simnet_enter(&env.rt);
+                for (kind, k) in [*a, *b] {
+                    let mut s = store.clone();
+                    let kk = key(k);
+                    match kind {
+                        0 => {
+                            counter += 1;
+                            let val = vec![k, counter, i as u8];
+                            model.insert(k, val.clone());
+                            let _ = env.rt.rt.spawn(async move { s.write(kk, val).await });
+                        }
+                        1 => reads.push((k, env.rt.rt.spawn(async move { s.read(kk).await }))),
+                        _ => {
+                            let handle = env.rt.rt.spawn(async move { s.notify_read(kk).await });
+                            waiters.push(Waiter { key: k, handle, cancelled: false, done: false, alt: before.get(&k).cloned() });
+                        }
+                    }
+                }
+                env.rt.quiesce();
+                for (k, mut h) in reads {
+                    if !h.is_finished() {
+                        return Err(("read-stuck".into(), format!("step {} {}: a concurrent read never returned", i, name(op))));
+                    }
+                    let got = env.rt.block_on(&mut h).ok().and_then(|r| r.ok()).flatten();
+                    outcome.push(if got.is_some() { 1 } else { 0 });
+                    if got != before.get(&k).cloned() && got != model.get(&k).cloned() {
+                        return Err(("read-wrong-value".into(), format!("step {} {}: a concurrent read returned {:?}, neither the value before ({:?}) nor after ({:?}) the concurrent write", i, name(op), got, before.get(&k), model.get(&k))));
+                    }
                 }
             }
             Op::Reopen => {
@@ -136,7 +178,7 @@ fn run_seq(env: &mut Env, exec_id: u64, seq: &[Op], outcome: &mut Vec<u8>) -> Re
                     w.done = true;
                     outcome.push(2);
                     match res {
-                        Ok(Ok(v)) if v == want => {}
+                        Ok(Ok(v)) if v == want || Some(&v) == w.alt.as_ref() => {}
                         Ok(Ok(v)) => return Err(("notify-wrong-value".into(), format!("step {} {}: waiter #{} on key {} completed with {:?}, reference {:?}", i, name(op), wi, (b'a' + w.key) as char, v, want))),
                         Ok(Err(e)) => return Err(("notify-error".into(), format!("step {} {}: waiter #{} failed: {}", i, name(op), wi, e))),
                         Err(e) => return Err(("notify-waiter-dropped".into(), format!("step {} {}: waiter #{} on key {} never received the value (task failed: {})", i, name(op), wi, (b'a' + w.key) as char, if e.is_panic() { "panicked: reply channel dropped" } else { "cancelled" }))),
@@ -287,6 +329,26 @@ pub fn c16(tier: Tier) -> i32 {
         s.push(Op::Read(0));
         seqs.push(s);
     }
+    // concurrent pairs: every step is a single operation or two operations issued concurrently
+    {
+        let prims: Vec<(u8, u8)> = vec![(0, 0), (0, 1), (1, 0), (1, 1), (2, 0), (2, 1)];
+        let mut alpha3: Vec<Op> = vec![Op::Write(0), Op::Write(1), Op::Notify(0), Op::Notify(1), Op::Read(0)];
+        for a in &prims {
+            for b in &prims {
+                if a.0 == 0 && b.0 == 0 && a.1 == b.1 {
+                    continue; // two concurrent writes to one key: the final value is not determined
+                }
+                alpha3.push(Op::Pair(*a, *b));
+            }
+        }
+        let mut all3 = Vec::new();
+        gen(tier.pick(2, 3), &alpha3, &mut Vec::new(), &mut all3);
+        for s in all3 {
+            if s.iter().any(|o| matches!(o, Op::Pair(..))) {
+                seqs.push(s);
+            }
+        }
+    }
     // with one reopen anywhere
     let mut with_reopen: Vec<Vec<Op>> = Vec::new();
     let mut alpha2 = base.to_vec();
@@ -375,7 +437,7 @@ pub fn c16(tier: Tier) -> i32 {
     rep.set("sequences_with_reopen", json!(n_reopen));
     rep.set("distinct_observation_vectors", json!(outcomes));
     rep.set("exhaustive", json!(true));
-    rep.set("bounds", json!({"alphabet":"write/read/notify_read on keys a,b (fresh value per write, fresh cloned handle per operation), cancel oldest/newest pending notify_read, reopen","max_length_plain":tier.pick(5,6),"max_length_with_one_reopen":tier.pick(3,4),"waiters_on_one_key":"1..=6 then write"}));
+    rep.set("bounds", json!({"alphabet":"write/read/notify_read on keys a,b (fresh value per write, fresh cloned handle per operation), cancel oldest/newest pending notify_read, reopen","max_length_plain":tier.pick(5,6),"max_length_with_one_reopen":tier.pick(3,4),"waiters_on_one_key":"1..=6 then write","concurrent_pairs":"sequences of 2/3 steps in which steps may be two operations (write/read/notify_read on a/b) started concurrently from two handles before the store task runs; outcomes must be linearizable"}));
     rep.sample(json!({"sequence": seqs[seqs.len() / 2].iter().map(name).collect::<Vec<_>>()}));
     rep.sample(json!({"sequence": with_reopen[with_reopen.len() / 2].iter().map(name).collect::<Vec<_>>()}));
     rep.assume("the store is a single task draining one FIFO command channel, so every behaviour of concurrent handles is an order of commands in that channel; RocksDB on /dev/shm; crash consistency (torn writes) is not part of the property (reopen is a clean drop of all handles)");
